@@ -1,5 +1,8 @@
 import Bmc.Proofs.C11
+import Bmc.Proofs.C11.Match
 #print axioms Bmc.Proofs.C11.session_result_matches_request
 #print axioms Bmc.Proofs.C11.stray_is_retry
 #print axioms Bmc.Proofs.C11.sessionless_result_matches_request
 #print axioms Bmc.Proofs.C11.strays_are_skipped
+#print axioms Bmc.Proofs.C11.isResponseTo_gen_eq
+#print axioms Bmc.Proofs.C11.acceptable_uses_isResponseTo
